@@ -119,5 +119,6 @@ def diff_c01(program: dict, po=None, so=None) -> list[dict]:
         if st["op"] == "export":
             d = compare_frames(a["frame"], b["frame"], bool(st.get("ordered")))
             if d:
-                diffs.append(dict(kind="frames_differ", stmt=st["id"], op="export", detail=d, ordered=bool(st.get("ordered"))))
+                dclass = "names" if d.startswith("names") else "rowcount" if d.startswith("row counts") else "cell"
+                diffs.append(dict(kind="frames_differ", stmt=st["id"], op="export", detail=d, dclass=dclass, ordered=bool(st.get("ordered"))))
     return diffs
